@@ -53,9 +53,13 @@ def items(tier: str) -> List[Any]:
         if s not in seen:
             seen.add(s)
             out.append(("shuffle", "RekeyTo", s))
-    # soundness-only: loops that really iterate (counter conditions)
+    # soundness-only: loops that really iterate (counter conditions); multi-way branches consuming a tracked condition
     for field in ("RekeyTo", "Sender") if tier == "quick" else FIELDS:
-        _, small = alphabets(tier, field)
+        full_f, small = alphabets(tier, field)
+        for s in spaces.multiway(full_f):
+            if s not in seen:
+                seen.add(s)
+                out.append(("shuffle", field, s))
         for s in spaces.counted_loops(small[:2] + [[f"txn {field}", f"addr {A.LIT1}", "!="]], tier):
             if s not in seen:
                 seen.add(s)
